@@ -213,6 +213,21 @@ func Each(doc []byte, limit int, f func(Mutant) bool) {
 		}
 		if s, ok := cur.(string); ok {
 			emit(p, "oversized", set(root, p, func(any) (any, bool) { return s + strings.Repeat("A", 100000), true }))
+			// the same type, but without the inner structure the value usually has (separators, prefixes, fields)
+			emit(p, "string-plain", set(root, p, func(any) (any, bool) { return "x", true }))
+			stripped := strings.Map(func(r rune) rune {
+				if strings.ContainsRune(":/@-.+?#= ()", r) {
+					return -1
+				}
+				return r
+			}, s)
+			if stripped != s && stripped != "" {
+				emit(p, "string-without-separators", set(root, p, func(any) (any, bool) { return stripped, true }))
+			}
+			if len(s) >= 2 {
+				emit(p, "string-truncated", set(root, p, func(any) (any, bool) { return s[:len(s)/2], true }))
+			}
+			emit(p, "string-separators-only", set(root, p, func(any) (any, bool) { return ":/:@-", true }))
 		}
 		if a, ok := cur.([]any); ok && len(a) > 0 {
 			emit(p, "duplicated-element", set(root, p, func(any) (any, bool) { return append(append([]any{}, a...), deepCopy(a[0])), true }))
